@@ -99,7 +99,10 @@ fn one(wseed: u64) {
     let mut threads: Vec<Vec<Op>> = vec![vec![], vec![], vec![]];
     let mut ms: Vec<Method> = methods.to_vec();
     rng.shuffle(&mut ms);
-    for (i, &method) in ms.iter().enumerate() {
+    // searches are cheap next to the builds: run the method list three times per thread so that
+    // the two searching threads overlap for long
+    let ms3: Vec<Method> = ms.iter().chain(ms.iter()).chain(ms.iter()).copied().collect();
+    for (i, &method) in ms3.iter().enumerate() {
         threads[0].push(Op::Search { method, hay: 0, iter: false });
         // the other thread runs the methods in rotated order so that different methods overlap too
         let m2 = ms[(i + rng.below(2)) % ms.len()];
